@@ -177,6 +177,11 @@ def gen_case(r, mode, max_nodes=60):
         else:
             g.ops.append('A')
             g.execute()
+    if mode == 'exec' and r.random() < 0.35 and g.live():
+        # the single-thread executor object of the case is reused after a run that a throwing node aborted
+        g.ops.append('A')
+        g.ops.append('E %d' % r.choice(g.live()))
+        g.execute(e=0, t=1)
     if r.random() < 0.3:
         g.ops.append('S')
     return g.line()
@@ -262,6 +267,8 @@ def coq_case(line, out):
                 ops.append('IOp (OClear %s)' % NAT(t[i + 1])); i += 2
             elif o == 'A':
                 ops.append('IOp OSetAll'); i += 1
+            elif o == 'E':      # aborted run (node t[i+1] throws) of the reused single-thread executor, then setAllNodesIncomplete: the state of op A
+                ops.append('IOp OSetAll'); i += 2
             elif o == 'i':
                 ops.append('IOp (OInc %s)' % P(t[i + 1])); i += 2
             elif o == 'k':
@@ -334,7 +341,7 @@ def op_at(line, idx):
     """the idx-th op (0-based) of a case line, with its position, for messages"""
     t = line.split()
     i, k = 1, 0
-    ar = {'s': 1, 'n': 2, 'd': 3, 'b': 3, 'c': 2, 'A': 1, 'i': 2, 'k': 2, 'P': 1, 'x': 3, 'S': 1}
+    ar = {'s': 1, 'n': 2, 'd': 3, 'b': 3, 'c': 2, 'A': 1, 'i': 2, 'k': 2, 'P': 1, 'x': 3, 'S': 1, 'E': 2}
     while i < len(t):
         n = ar.get(t[i], 1)
         if k == idx:
@@ -347,7 +354,7 @@ def op_at(line, idx):
 def prefix_upto(line, idx):
     t = line.split()
     i, k = 1, 0
-    ar = {'s': 1, 'n': 2, 'd': 3, 'b': 3, 'c': 2, 'A': 1, 'i': 2, 'k': 2, 'P': 1, 'x': 3, 'S': 1}
+    ar = {'s': 1, 'n': 2, 'd': 3, 'b': 3, 'c': 2, 'A': 1, 'i': 2, 'k': 2, 'P': 1, 'x': 3, 'S': 1, 'E': 2}
     while i < len(t):
         n = ar.get(t[i], 1)
         i += n
